@@ -26,7 +26,13 @@ class YamlModels(Models):
     def __init__(self):
         super().__init__()
         ins = lambda pat, fn: self.table.insert(0, (re.compile("^(?:%s)$" % pat), fn))
-        ins(r"humantime::format_duration|format_duration", lambda c, m, a: Str([SInt(ord(x), "char") for x in "1s"]))
+        # humantime is an external crate: its formatter is an injective function of the duration it is given.  Each call yields a
+        # one-character token (private-use area) and the harness records which duration it stands for — what scrut passes in is the subject.
+        def format_duration(c, m, a):
+            calls = c.notes.setdefault("fmt_calls", [])
+            calls.append(deref(a[0]))
+            return Str([SInt(0xE000 + len(calls) - 1, "char")])
+        ins(r"humantime::format_duration|format_duration", format_duration)
         ins(r"<FormattedDuration as ToString>::to_string|<humantime::FormattedDuration as ToString>::to_string", lambda c, m, a: StringBuf(list(as_str(a[0]).chars)))
         ins(r"Path::to_string_lossy|PathBuf::to_string_lossy", lambda c, m, a: Agg("Cow", "Borrowed", [as_str(deref(a[0]))]))
         ins(r"<PathBuf as Deref>::deref", lambda c, m, a: a[0])
@@ -143,6 +149,78 @@ def h_path(max_len):
     return h
 
 
+def h_durations():
+    """timeout and wait.timeout of any length are rendered by humantime's formatter applied to exactly that duration"""
+    def nanos(d):
+        return deref(d).fields[0]
+
+    def setup(ctx):
+        t = Agg("Duration", None, [ctx.sym_int("timeout_ns", "nat")])
+        w = Agg("Duration", None, [ctx.sym_int("wait_ns", "nat")])
+        for d in (t, w):
+            ctx.add(nanos(d).z() < 400 * 86400 * 10 ** 9)       # up to 400 days
+        ctx.notes["durations"] = (t, w)
+        wait = mk_struct("TestCaseWait", timeout=w, path=none())
+        cfg = mk_struct("TestCaseConfig", detached=none(), environment=MapBuf([]), keep_crlf=none(), output_stream=none(),
+                        skip_document_code=none(), strip_ansi_escaping=none(), timeout=some(t), wait=some(wait))
+        return [new_ref(cfg)]
+
+    def post(ctx, args, kind, value):
+        if kind != "return":
+            return False
+        text = list(as_str(value).chars)
+        calls = ctx.notes.get("fmt_calls", [])
+        t, w = ctx.notes["durations"]
+        conds = []
+        for key, d in (("timeout: ", t), ("wait: ", w)):
+            k = find_sub(text, key)
+            if k < 0 or k >= len(text) or not text[k].concrete or not (0xE000 <= text[k].v < 0xE000 + len(calls)):
+                return False              # the key is missing, or its value is not one formatted duration
+            if k + 1 < len(text) and not (text[k + 1].concrete and chr(text[k + 1].v) in ",}"):
+                return False              # something else is glued to it
+            conds.append(nanos(calls[text[k].v - 0xE000]).z() == nanos(d).z())
+        return z3.And(conds)
+    h = e2.Harness("one_liner_durations", "TestCaseConfig::to_yaml_one_liner", [("timeout and wait of any length", setup)], post, native="one_liner_roundtrip",
+                   judge=lambda a, k, v: (False, "", ""),
+                   describe="timeout / wait are written as humantime's rendering of exactly the configured duration (humantime::format_duration is an "
+                            "injective black box; what scrut passes to it is decided)",
+                   bound="all durations below 400 days (nanosecond resolution) for timeout and wait")
+    h.models_cls = YamlModels
+    return h
+
+
+def replay_durations(rep, h, res):
+    for model, r in res.raw_witnesses[:4]:
+        t, w = r.ctx.notes["durations"]
+        # prefer witnesses whose sub-second / sub-minute parts are not zero: they show when a part is dropped
+        s = z3.Solver()
+        s.add(*r.pc)
+        good = h.post(r.ctx, r.ctx.notes["args"], r.kind, r.value if r.kind == "return" else r.info)
+        if not isinstance(good, bool):
+            s.add(z3.Not(good))
+        tn, wn = deref(t).fields[0].z(), deref(w).fields[0].z()
+        cands = []
+        for pref in ([tn % 10 ** 9 == 1000000, wn % 10 ** 9 == 1000000, (tn / 10 ** 9) % 60 == 5, (wn / 10 ** 9) % 60 == 5], [tn % 10 ** 9 != 0, wn % 10 ** 9 != 0], []):
+            s.push()
+            s.add(*pref)
+            if s.check() == z3.sat:
+                mm = s.model()
+                cands.append((mm.eval(tn, model_completion=True).as_long(), mm.eval(wn, model_completion=True).as_long()))
+            s.pop()
+        done = False
+        for tv, wv in cands:
+            cfgw = {"timeout": str(tv), "wait": {"timeout": str(wv), "path": None}}
+            nk, nv = NAT.call("one_liner_roundtrip", [cfgw])
+            if nk != "return" or not nv.get("equal"):
+                rep.violation("one-liner:duration", "timeout %d ns / wait %d ns do not survive to_yaml_one_liner → parse: rendered %r, read back %s"
+                              % (tv, wv, nv.get("rendered") if isinstance(nv, dict) else nv, nv.get("parsed") if isinstance(nv, dict) else ""),
+                              {"kind": "eval", "fn": "one_liner_roundtrip", "args": [cfgw], "native": [nk, nv], "harness": h.name})
+                done = True
+                break
+        if not done:
+            rep.mismatches.append("%s: solver witnesses %s did not reproduce natively" % (h.name, cands))
+
+
 def replay(rep, h, res, kind):
     for model, r in res.raw_witnesses[:8]:
         if kind == "env":
@@ -176,9 +254,14 @@ def run(pid, tier):
         res = e2.run_with_raw(prog, h)
         replay(rep, h, res, kind)
         e2.record(rep, h, res)
+    hd = h_durations()
+    resd = e2.run_with_raw(prog, hd)
+    replay_durations(rep, hd, resd)
+    e2.record(rep, hd, resd)
     # the native round trip on a fixed table of ordinary configurations guards the replay oracle itself
     ok_rows = [{"environment": [["K", "a b"]]}, {"environment": [["K", "a:b"]]}, {"wait": {"timeout": str(10 ** 9), "path": "a/b.c"}},
-               {"keep_crlf": True, "skip_document_code": 7, "output_stream": "Stderr"}]
+               {"keep_crlf": True, "skip_document_code": 7, "output_stream": "Stderr"}, {"timeout": str(45 * 86400 * 10 ** 9 + 250 * 10 ** 6)},
+               {"wait": {"timeout": str(31 * 86400 * 10 ** 9 + 5 * 10 ** 9 + 10 ** 6), "path": None}}, {"timeout": "1500000"}]
     bad = 0
     for w in ok_rows:
         nk, nv = NAT.call("one_liner_roundtrip", [w])
